@@ -2,12 +2,13 @@
 import json, os, re, subprocess
 from lib import vf
 from gen import mobile_alloc
+from props import c20_chain_part as chain     # the hopping list end to end (decoder -> trxcon SETFH -> fake_trx -> per-frame channel)
 
 ID = "C20"
 LEVEL = "proof"
-LEAN_MODULES = ["OsmoVerif.Props.C20"]
-DRIVER_MODULES = ["MobileAlloc"]
-LEAN_MODEL_MODULES = ["OsmoVerif.Model.MobileAlloc", "OsmoVerif.Spec.MobileAlloc", "OsmoVerif.Lemmas.MobileAlloc"]
+LEAN_MODULES = ["OsmoVerif.Props.C20"] + chain.LEAN_MODULES
+DRIVER_MODULES = ["MobileAlloc"] + chain.DRIVER_MODULES
+LEAN_MODEL_MODULES = ["OsmoVerif.Model.MobileAlloc", "OsmoVerif.Spec.MobileAlloc", "OsmoVerif.Lemmas.MobileAlloc"] + chain.LEAN_MODEL_MODULES
 ASSUMPTIONS = [
     "theorems are about OsmoVerif.Model.MobileAlloc: hand model of gsm48_decode_mobile_alloc (sysinfo.c) statement by statement, with freq[], ma[], hopping[] and the local table f[] as capacity-checked lists (out-of-bounds access, use of an indeterminate f[i], zero-sized VLA and fuel exhaustion are distinct Fault outcomes)",
     "the specification OsmoVerif.Spec.MobileAlloc is written from TS 44.018 10.5.2.21 (cell allocation list ascending with ARFCN 0 last; MA C i = bit ((i-1) mod 8) of octet n-1-(i-1)/8 of the value part)",
@@ -15,13 +16,15 @@ ASSUMPTIONS = [
     "model tied to /repo by differential execution: the CURRENT text of the function is extracted from sysinfo.c (name + brace matching) with struct gsm_sysinfo_freq / FREQ_TYPE_* from the headers, compiled unchanged with clang -fsanitize=address,undefined -fno-sanitize-recover=all and driven with exact-size heap buffers; LOGP is an argument sink (arguments are evaluated)",
     "memory safety of the compiled binary is sanitizer evidence (every case, abort attributed to the request); the theorem decode_ma_bounds is about the index arithmetic of the model",
     "callers are not modelled: that `ma` points at `len` readable octets and that freq/hopping have the regenerated capacities are hypotheses of the theorems (both callers satisfy them: sysinfo.c checks payload_len >= 2 + data[1]; gsm48_rr.c bounds mob_alloc_lv by its array size)",
-]
+] + chain.ASSUMPTIONS
 MANIFEST = {
     "text": "Lean 4 theorems over a statement-by-statement model of gsm48_decode_mobile_alloc with explicit buffer capacities: decode_ma_spec (len <= 8: return 0, decoded list = selection of TS 44.018 10.5.2.21, subset of the cell allocation, ordered ascending with ARFCN 0 last, <= 64 entries, rest of hopping[] untouched), decode_ma_masks (si4 mask update), decode_ma_reject (len > 8: -EINVAL, outputs untouched), decode_ma_bounds (for ALL freq[1024] contents, len, bitmaps: no access outside f/hopping/freq/ma, no indeterminate value used), empty_bitmap, beyond_ca_ends; all cell allocations (any subset of 0..1023, also > 64 entries). The current function text is extracted from sysinfo.c, compiled under ASan+UBSan and compared with the model on structured cases; an independent Python transcription of the standard judges the real outputs",
     "note": "trusted: Lean kernel (+propext, Classical.choice, Quot.sound), gen/mobile_alloc.py (extractor/translator), harness/c/c20_harness.c and the case generators, clang sanitizers for the compiled binary's memory behaviour (evidence, not proof); modelled not verified: C int promotion in the index expressions as written in Model/MobileAlloc.lean, LOGP as argument sink; the theorems hold on the tree with the F7 fix (zero-length VLA / write past f[] for len == 0)",
     "technique": "Lean 4 proof (loop invariants by induction over fuel, list lemmas) over a model with capacity-checked buffers; differential correspondence with the extracted C function under ASan/UBSan; independent Python oracle of TS 44.018 10.5.2.21",
     "design_ref": "DESIGN.md section 5 C20, section 7 F7",
 }
+MANIFEST["text"] += chain.MANIFEST_TEXT
+MANIFEST["note"] += chain.MANIFEST_NOTE
 
 SYSINFO_C = "src/host/layer23/src/common/sysinfo.c"
 # hash of the function text the model was written against (tree with the F7 fix)
@@ -42,6 +45,7 @@ FIXED = [
 
 def gen(run):
     run.consts = mobile_alloc.generate(run)
+    chain.gen(run)
 
 
 # ----------------------------------------------------------------------------
@@ -439,6 +443,8 @@ def correspond(run, corr):
     nt = [i for i, c in enumerate(cases) if c.len and c.ca][:3] + [i for i, c in enumerate(cases) if c.tag == "biglen"][:1]
     corr.samples = [{"request": reqs[i], "impl": impl[i], "model": model[i]} for i in nt]
     corr.samples.append({"request": sreqs[0], "impl": spy[0], "model": smodel[0]})
+    # the decoded list on its way to L1 and to the simulator
+    chain.correspond(run, corr)
 
 
 def search(run, corr, deep):
@@ -482,6 +488,7 @@ def search(run, corr, deep):
         found += run.report_witness(w)
         if found >= 6:
             break
+    found += chain.oracle(run, corr, deep)
     return found
 
 
@@ -493,6 +500,11 @@ def replay(run, path):
         w = v.get("witness")
         if not w:
             print("replay: no concrete input recorded (%s)" % json.dumps(v.get("broken"))[:400])
+            continue
+        if w.get("part") == "chain":
+            still, text = chain.replay(run, w)
+            print(text)
+            bad += bool(still)
             continue
         c = Case(w["ca"], bytes.fromhex(w["bitmap"]), w["len"], w["si4"])
         toks = w["request"].split()
